@@ -4,7 +4,7 @@
    once) and Proofs/C13Inst.v (computed on Model/Skeleton.v, which tools/skel regenerates from
    the Go sources on every run). *)
 From Coq Require Import List NArith String Bool Arith.
-From V Require Import Model.Conc Model.Skeleton Proofs.ConcProofs Proofs.C13Inst.
+From V Require Import Model.Conc Model.Skeleton Model.Publish Proofs.ConcProofs Proofs.C13Inst Proofs.PublishProofs.
 Import ListNotations.
 Open Scope string_scope.
 
@@ -32,6 +32,21 @@ Print Assumptions C13_lockset_race_free.
 Theorem C13_skeleton_shape : c13_shape = true.
 Proof. exact c13_shape_check. Qed.
 Print Assumptions C13_skeleton_shape.
+
+(* the handshake-phase exemption of the lockset theorem below rests on this: in the functions that
+   publish the completion of the handshake (the store that makes handshakeComplete() true) no
+   statement after that store uses the connection (translator: publish_sites) ... *)
+Theorem C13_publication_is_last : c13_publish_last = true.
+Proof. exact c13_publish_last_check. Qed.
+Print Assumptions C13_publication_is_last.
+
+(* ... because then a thread that touches a field only after it observed completion never meets
+   the handshake thread at that field, whatever the interleaving *)
+Theorem C13_publish_then_observe_race_free : forall h0 w0 s,
+  publish_last h0 = true -> guarded w0 = true ->
+  preach (mkP h0 w0 false) s -> ~ prace s.
+Proof. exact publish_then_observe_race_free. Qed.
+Print Assumptions C13_publish_then_observe_race_free.
 
 (* rank handshakeMutex < in < out < {cache mutex, pa lock, others}: whatever exported methods
    of one connection (cache, switch connection) any number of goroutines run, no reachable
